@@ -734,4 +734,63 @@ theorem mergeSort_pair {α} (a b : α) (le : α → α → Bool) :
     [a, b].mergeSort le = if le a b then [a, b] else [b, a] := by
   simp [List.mergeSort, List.MergeSort.Internal.splitInTwo, List.merge]
 
+theorem mem_insertSorted (x : Int) (l : List Int) (y : Int) : y ∈ insertSorted x l ↔ y = x ∨ y ∈ l := by
+  induction l with
+  | nil => simp [insertSorted]
+  | cons z l ih =>
+    simp only [insertSorted]
+    split
+    · simp
+    · simp only [List.mem_cons, ih]
+      constructor
+      · rintro (h | h | h)
+        · exact Or.inr (Or.inl h)
+        · exact Or.inl h
+        · exact Or.inr (Or.inr h)
+      · rintro (h | h | h)
+        · exact Or.inr (Or.inl h)
+        · exact Or.inl h
+        · exact Or.inr (Or.inr h)
+
+theorem mem_sortInts (l : List Int) (y : Int) : y ∈ sortInts l ↔ y ∈ l := by
+  unfold sortInts
+  induction l with
+  | nil => simp
+  | cons x l ih => simp only [List.foldr_cons, mem_insertSorted, ih, List.mem_cons]
+
+/-- every run of `groupby` is non-empty and all its members carry the key of the run -/
+theorem groupRuns_mem (l : List (List Int × Group)) :
+    ∀ it ∈ groupRuns l, it.2 ≠ [] ∧ ∀ g ∈ it.2, (it.1, g) ∈ l := by
+  induction l with
+  | nil => intro it hit; simp [groupRuns] at hit
+  | cons x rest ih =>
+    obtain ⟨k, g⟩ := x
+    intro it hit
+    simp only [groupRuns] at hit
+    split at hit
+    · next k' gs more heq =>
+      rw [heq] at ih
+      split at hit
+      · next hkk =>
+        have hk : k = k' := by simpa using hkk
+        rcases List.mem_cons.1 hit with rfl | hit
+        · refine ⟨by simp, ?_⟩
+          intro g' hg'
+          rcases List.mem_cons.1 hg' with rfl | hg'
+          · simp
+          · have := (ih (k', gs) (by simp)).2 g' hg'
+            simp only at this
+            rw [hk]
+            exact List.mem_cons_of_mem _ this
+        · have := ih it (List.mem_cons_of_mem _ hit)
+          exact ⟨this.1, fun g' hg' => List.mem_cons_of_mem _ (this.2 g' hg')⟩
+      · rcases List.mem_cons.1 hit with rfl | hit
+        · exact ⟨by simp, by simp⟩
+        · have := ih it hit
+          exact ⟨this.1, fun g' hg' => List.mem_cons_of_mem _ (this.2 g' hg')⟩
+    · next heq =>
+      simp only [List.mem_singleton] at hit
+      subst hit
+      exact ⟨by simp, by simp⟩
+
 end C14
